@@ -55,7 +55,12 @@ def run(ctx):
         cs = [("target", r / 18.0) for r in range(270 + off, 721, 9 if ctx.thorough else 27)]
         # every pump: up, then off again at once (the spa's output state has not followed the demand yet), then a speed and off
         ms = [("mode", i, m) for i in range(4) for m in ("HI", "OFF", "LO", "OFF")]
-        return ms + [("unit", False)] + fs + [("unit", True)] + cs
+        return ms + wc_plan() + [("unit", False)] + fs + [("unit", True)] + cs
+
+    def wc_plan():
+        # every watercare mode, by index and by name (mode 0 included), twice in a row as well
+        from geckolib.const import GeckoConstants as K
+        return [("wc", m) for m in (0, 1, 0, 0, 2, 3, 4)] + [("wc", nm) for nm in K.WATERCARE_MODE_STRING]
 
     async def scenario(loop, snap, plan=()):
         from geckolib.const import GeckoConstants as K
@@ -134,10 +139,14 @@ def run(ctx):
                 await f.water_heater.async_set_temperature_unit("°C" if cel else "°F")
                 check = (lambda cel=cel: f.water_heater.temperature_unit == ("°C" if cel else "°F"))
             elif kind == "wc":
-                m = rng.randrange(0, 5)
+                m = forced[1] if forced else rng.randrange(0, 5)
+                if isinstance(m, str):
+                    m_arg, m = m, K.WATERCARE_MODE_STRING.index(m)
+                else:
+                    m_arg = m
                 ck = "SetWatercare %d" % m
                 desc = ("watercare", m)
-                t = loop.create_task(f.water_care.async_set_mode(m))   # SETWC is never answered (K4): do not wait for the retries
+                t = loop.create_task(f.water_care.async_set_mode(m_arg))   # SETWC is never answered (K4): do not wait for the retries
                 await asyncio.sleep(0.5)
                 t.cancel()
                 check = None
@@ -163,7 +172,7 @@ def run(ctx):
         return out
 
     for si, snap in enumerate(snaps):
-        res = vloop.run(lambda loop: scenario(loop, snap, sweep_plan() if si == ctx.seed % len(snaps) else ()))
+        res = vloop.run(lambda loop: scenario(loop, snap, sweep_plan() if si == ctx.seed % len(snaps) else wc_plan()))
         for r in res:
             exprs.append(r["expr"])
             meta.append({"snapshot": snap, "command": r["desc"], "datagrams": r["sent"]})
@@ -173,6 +182,9 @@ def run(ctx):
             # ---- oracle
             if len(r["sent"]) > 1:
                 ctx.fail("command:multiple", "command %s emitted %d datagrams" % (r["desc"], len(r["sent"])), {"snapshot": snap, "command": r["desc"], "datagrams": r["sent"]})
+            if r["desc"][0] == "watercare" and not any(x.startswith("(Setwc ") and x.rstrip(")").split()[-1] == str(r["desc"][1]) for x in r["sent"]):
+                ctx.fail("command:watercare_not_sent", "setting watercare mode %d emitted %r instead of one SETWC datagram carrying that mode" % (r["desc"][1], r["sent"]),
+                         {"snapshot": snap, "command": r["desc"], "datagrams": r["sent"]})
             if r["readback_ok"] is False:
                 ctx.fail("command:readback:%s" % r["desc"][0], "after the spa's echo the client does not read the requested value (%s)" % (r["desc"],),
                          {"snapshot": snap, "command": r["desc"], "datagrams": r["sent"], "connected_answering_time": r["gate"]})
